@@ -460,27 +460,38 @@ def oracle_disagrees(case, specs, final, coords):
         ref = {tuple(x / F(g) for x in k): v for k, v in ref.items()}
         if any(x.denominator != 1 for k in ref for x in k):
             raise RuntimeError("generator produced an off-grid shift")
+    # CONTENT per coordinate: rows whose three amplitudes are exactly zero are empty (the gridded / merging back-ends
+    # may leave such rows behind, with any coordinate, e.g. wavenumber 0); the amplitudes of non-empty rows sharing a
+    # coordinate are summed (same Fourier content)
+    dup = set()
     for i in range(ns):
+        if not np.any(final[i] != 0):
+            continue
         if coords is None:
             key = (F(i - n),) + tuple(F(0) for _ in range(kdim - 1))
         elif g:
             key = tuple(F(round(float(x) / g)) for x in coords[i])
             if max(abs(float(x) / g - round(float(x) / g)) for x in coords[i]) > 1e-6:
-                return "stored coordinate %s is not on the grid" % (coords[i],)
+                return "stored coordinate %s of a non-empty state is not on the grid" % (coords[i],)
         else:
             key = tuple(F(float(x)) for x in coords[i])
         key = key + tuple(F(0) for _ in range(kdim - len(key)))
-        if key in impl and np.abs(final[i]).max() > 0:
-            return "two stored states share the coordinates %s" % (key,)
-        impl.setdefault(key, final[i])
+        if key in impl:
+            dup.add(key)
+            impl[key] = impl[key] + np.asarray(final[i], complex)
+        else:
+            impl[key] = np.asarray(final[i], complex)
     scale = 1 + max([np.abs(v).max() for v in ref.values()] + [0])
-    worst = 0.0
+    worst, wkey = 0.0, None
     for key in set(ref) | set(impl):
         a = np.asarray(impl.get(key, [0, 0, 0]), complex)
         b = np.asarray(ref.get(key, [0, 0, 0]), complex)
-        worst = max(worst, np.abs(a - b).max())
+        e = np.abs(a - b).max()
+        if e > worst:
+            worst, wkey = e, key
     if worst > 1e-9 * scale:
-        return "max |state - sum over pathways| = %.3g" % worst
+        return "max |state - sum over pathways| = %.3g at coordinates %s%s" % (
+            worst, tuple(str(x) for x in wkey), " (several non-empty stored states share these coordinates; their sum was compared)" if wkey in dup else "")
     return None
 
 
